@@ -224,3 +224,49 @@ func (k *KeyData) UnmarshalJSON(data []byte) error {
 	}
 	return nil
 }
+
+// ApplyRequest travels through the raft log as JSON. Command arguments and keys are arbitrary bytes, which
+// JSON strings cannot carry (bytes that are not valid UTF-8 are replaced when encoding), so they are
+// written in the base64 form that encoding/json uses for []byte.
+type applyRequestJSON struct {
+	Type         string   `json:"Type"`
+	ServerID     string   `json:"ServerID"`
+	ConnectionID string   `json:"ConnectionID"`
+	Protocol     int      `json:"Protocol"`
+	Database     int      `json:"Database"`
+	CMD          [][]byte `json:"CMD"`
+	Key          []byte   `json:"Key"`
+}
+
+func (r ApplyRequest) MarshalJSON() ([]byte, error) {
+	out := applyRequestJSON{
+		Type:         r.Type,
+		ServerID:     r.ServerID,
+		ConnectionID: r.ConnectionID,
+		Protocol:     r.Protocol,
+		Database:     r.Database,
+		Key:          []byte(r.Key),
+	}
+	for _, arg := range r.CMD {
+		out.CMD = append(out.CMD, []byte(arg))
+	}
+	return json.Marshal(out)
+}
+
+func (r *ApplyRequest) UnmarshalJSON(data []byte) error {
+	var in applyRequestJSON
+	if err := json.Unmarshal(data, &in); err != nil {
+		return err
+	}
+	r.Type = in.Type
+	r.ServerID = in.ServerID
+	r.ConnectionID = in.ConnectionID
+	r.Protocol = in.Protocol
+	r.Database = in.Database
+	r.Key = string(in.Key)
+	r.CMD = nil
+	for _, arg := range in.CMD {
+		r.CMD = append(r.CMD, string(arg))
+	}
+	return nil
+}
